@@ -133,6 +133,97 @@ theorem cdata_nonXmlChar_unwritable (s : Str) (c : Char) (hc : c ∈ s) (hx : is
     rw [List.all_eq_false]
     exact ⟨c, hcp, by simp [hx]⟩
 
+/-! ### `unescaped_gt` described on the input -/
+
+/-- `serialize_text(unescaped_gt = true)` described on the INPUT: `rin` = the characters read so far,
+    reversed; a `>` is escaped exactly when the two characters before it are `]]`. -/
+def gtIn : Str → Str → Str
+  | _, [] => []
+  | rin, c :: cs =>
+    (if c = '>' then (if startsBrBr rin then textGtEscape else ['>']) else escapeWith textEscapes c) ++
+      gtIn (c :: rin) cs
+
+theorem startsBrBr_head {l : Str} (h : startsBrBr l = true) : l.head? = some ']' := by
+  match l with
+  | [] => simp [startsBrBr] at h
+  | [a] => simp [startsBrBr] at h
+  | a :: b :: r =>
+    simp only [startsBrBr, Bool.and_eq_true, beq_iff_eq] at h
+    simp [h.1]
+
+theorem startsBrBr_cons_bracket (l : Str) : startsBrBr (']' :: l) = decide (l.head? = some ']') := by
+  match l with
+  | [] => simp [startsBrBr]
+  | b :: r => by_cases h : b = ']' <;> simp [startsBrBr, h]
+
+theorem startsBrBr_of_head_ne {l : Str} (h : l.head? ≠ some ']') : startsBrBr l = false := by
+  cases hb : startsBrBr l with
+  | false => rfl
+  | true => exact absurd (startsBrBr_head hb) h
+
+/-- What an escaped character leaves at the end of the output: `]` only for `]` itself. -/
+theorem escape_last (c : Char) (hc : c ≠ ']') (racc : Str) :
+    ((escapeWith textEscapes c).reverse ++ racc).head? ≠ some ']' := by
+  by_cases h2 : c = '&'
+  · subst h2
+    simp [escapeWith, textEscapes, List.lookup]
+  by_cases h3 : c = '<'
+  · subst h3
+    simp [escapeWith, textEscapes, List.lookup]
+  by_cases h4 : c = '\r'
+  · subst h4
+    simp [escapeWith, textEscapes, List.lookup]
+  have e2 : (c == '&') = false := by simpa using h2
+  have e3 : (c == '<') = false := by simpa using h3
+  have e4 : (c == '\r') = false := by simpa using h4
+  simp [escapeWith, textEscapes, List.lookup, e2, e3, e4, hc]
+
+theorem gtOut_eq_gtIn (s : Str) : ∀ (racc rin : Str), startsBrBr racc = startsBrBr rin →
+    (racc.head? = some ']' ↔ rin.head? = some ']') → gtOut racc s = gtIn rin s := by
+  induction s with
+  | nil => intro racc rin _ _; rfl
+  | cons c cs ih =>
+    intro racc rin h1 h2
+    unfold gtOut gtIn
+    by_cases hg : c = '>'
+    · subst hg
+      rw [gtPiece_gt, h1]
+      simp only [if_true]
+      congr 1
+      apply ih
+      · rw [startsBrBr_of_head_ne, startsBrBr_of_head_ne]
+        · simp
+        · split <;> simp [textGtEscape]
+      · constructor
+        · intro h; exfalso; revert h; split <;> simp [textGtEscape]
+        · intro h; simp at h
+    · have hp : gtPiece racc c = escapeWith textEscapes c := by simp [gtPiece, hg]
+      rw [hp]
+      simp only [hg, if_false]
+      congr 1
+      apply ih
+      · by_cases hb : c = ']'
+        · subst hb
+          have : escapeWith textEscapes ']' = [']'] := by decide
+          rw [this]
+          simp only [List.reverse_cons, List.reverse_nil, List.nil_append, List.cons_append]
+          rw [startsBrBr_cons_bracket, startsBrBr_cons_bracket]
+          simp [h2]
+        · rw [startsBrBr_of_head_ne (escape_last c hb racc), startsBrBr_of_head_ne]
+          simp [hb]
+      · by_cases hb : c = ']'
+        · subst hb
+          have : escapeWith textEscapes ']' = [']'] := by decide
+          rw [this]; simp
+        · constructor
+          · intro h; exact absurd h (escape_last c hb racc)
+          · intro h; simp at h; exact absurd h hb
+
+theorem serializeText_true_input (s : Str) : serializeText true s = gtIn [] s := by
+  rw [serializeText_true_eq]
+  exact gtOut_eq_gtIn s [] [] rfl (by simp)
+
+
 /-! ### The closed loop, bundled -/
 
 variable (env : Env) (pr : TokenParams)
